@@ -251,6 +251,7 @@ func main() {
 	cf := cloneFacts(node)
 	nf := nodeFacts(args.Repo, node, cf)
 	af := argFacts(args.Repo, node, cf)
+	bl := bindFacts(node)
 
 	var b strings.Builder
 	b.WriteString("import Model.GenFacts\n")
@@ -294,6 +295,9 @@ func main() {
 	b.WriteString("def baseDefaultIsClassOfArg : Bool := " + leanBool(af.baseDefault) + "\n\n")
 	b.WriteString("/-- comparisons of the wanted class name in `data.Class.Is` and its helpers -/\n")
 	b.WriteString("def nameCmps : List NameCmp := " + leanList(af.cmps, "  ") + "\n\n")
+
+	b.WriteString("/-- the loops that bind the arguments of a call on the generic path (they call the binder that asks\n`genericParamType`): what the loop does with the result of binding one argument -/\n")
+	b.WriteString("def bindLoops : List BindLoop := " + leanList(bl, "  ") + "\n\n")
 
 	sort.Strings(shape)
 	b.WriteString("/-- places where the source no longer has the syntactic shape the translator expects -/\n")
